@@ -597,7 +597,7 @@ HeadNotWritten ==
             \* (a request that the quota never limits - anything but a new QoS>0 PUBLISH - is kept from the wire and its
             \* caller told so instead of waiting for the acknowledgement: C05 as well)
             ELSE IF m.pk.t # "PUBLISH" THEN V(<<"C10", "C05">>, "rejected-under-quota", <<m.pk.t, S.quota, S.R>>)
-            ELSE V("C10", "rejected-under-quota", <<S.quota, S.R>>))
+            ELSE V(WithC15("C10"), "rejected-under-quota", <<S.quota, S.R>>))
     ELSE IF m.pk.t \in {"PUBLISH", "PUBREL"} THEN V(WithC15("C06"), "request-not-written", <<m.pk.t, nx.kind>>)
     ELSE V(WithC15("C05"), "request-not-written", <<m.pk.t, nx.kind>>)
 
@@ -618,6 +618,8 @@ ClassifyWr(pk) ==
          \* limits has not been "written in full" (C12)
          V(<<"C01">> \o (IF resumeQ # <<>> /\ ~Deciding THEN <<"C17">> ELSE <<>>)
                     \o (IF resumeQ = <<>> /\ msgQ # <<>> THEN <<"C12">> ELSE <<>>)
+                    \* (... and if that request is a PUBLISH or PUBREL, the publish has not put its packet on the connection: C06)
+                    \o (IF resumeQ = <<>> /\ msgQ # <<>> /\ Head(msgQ).pk.t \in {"PUBLISH", "PUBREL"} THEN <<"C06">> ELSE <<>>)
                     \o (IF resumeQ = <<>> /\ netIn # <<>> /\ HandlePkt(S, Head(netIn)).wr # <<>> THEN <<"C08">> ELSE <<>>),
            "malformed-packet", pk.x)
   ELSE IF resumeQ # <<>> /\ ~Deciding THEN V("C17", "resume-mismatch", <<pk.t, pk.id, pk.dup, Head(resumeQ).t, Head(resumeQ).id>>)
